@@ -1,5 +1,217 @@
 import PkVerif.Drv.Common
-/-! `pkmodel-c07`: stub (property not built yet). -/
+import PkVerif.Model.Attr
+/-! `pkmodel-c07`: the attribute/deletion model behind the c07 line protocol.
+
+    pn <p>                                          p ∈ {0,1}
+    claim <id> <p> <s> set|add|del <attr> <val> <date> <rk>
+    delete <id> c<id>|p<p> <s> <date> <rk>
+    attr idx|inc|load <p> <attr> <T> <f>            T = z | seconds ; f = a | 0 | 1 | u
+    vals inc|load <p> <attr> <T> <f>
+    has inc|load <p> <attr> <val> <T>
+    via inc|load <p> <T> <f>
+    deleted idx|inc|load c<id>|p<p>
+    claims idx|inc|load <p> <f> <attr>|*
+    order inc|load <p>
+-/
 namespace Pk.Drv.C07
-def machine : Machine := { σ := Unit, init := (), step := fun s _ => (s, "bad-op") }
+open Pk Pk.Attr
+
+/-- the harness checks that the wall clock lies between the past dates (< 1.7·10⁹) and the future
+dates (> 4·10⁹) it generates; any `now` in between gives the same answers -/
+def nowC : Nat := 3000000000
+def maxTime : Nat := 9999999999
+
+def natArg (s : String) (max : Nat) : Option Nat :=
+  let cs := s.toList
+  if cs.isEmpty || cs.length > 16 then none
+  else if cs.length > 1 && cs.head? == some '0' then none
+  else if cs.all (fun c => c.isDigit) then
+    let v := cs.foldl (fun n c => n * 10 + (c.toNat - 48)) 0
+    if v ≤ max then some v else none
+  else none
+
+def cont (b : Nat) : Bool := 0x80 ≤ b && b ≤ 0xBF
+
+/-- Go's utf8.Valid -/
+def utf8Valid : List Nat → Bool
+  | [] => true
+  | b0 :: rest =>
+    if b0 < 0x80 then utf8Valid rest
+    else if 0xC2 ≤ b0 && b0 ≤ 0xDF then
+      match rest with
+      | b1 :: r => cont b1 && utf8Valid r
+      | _ => false
+    else if 0xE0 ≤ b0 && b0 ≤ 0xEF then
+      match rest with
+      | b1 :: b2 :: r =>
+        (if b0 = 0xE0 then 0xA0 ≤ b1 && b1 ≤ 0xBF
+         else if b0 = 0xED then 0x80 ≤ b1 && b1 ≤ 0x9F
+         else cont b1) && cont b2 && utf8Valid r
+      | _ => false
+    else if 0xF0 ≤ b0 && b0 ≤ 0xF4 then
+      match rest with
+      | b1 :: b2 :: b3 :: r =>
+        (if b0 = 0xF0 then 0x90 ≤ b1 && b1 ≤ 0xBF
+         else if b0 = 0xF4 then 0x80 ≤ b1 && b1 ≤ 0x8F
+         else cont b1) && cont b2 && cont b3 && utf8Valid r
+      | _ => false
+    else false
+
+def textArg (s : String) : Option Bytes :=
+  match hexArg s with
+  | some b => if utf8Valid b then some b else none
+  | none => none
+
+def pnArg (w : World) (s : String) : Option Nat :=
+  match s with
+  | "0" => if 0 ∈ w.pns then some 0 else none
+  | "1" => if 1 ∈ w.pns then some 1 else none
+  | _ => none
+
+def sArg (s : String) : Option Nat :=
+  match s with
+  | "0" => some 0
+  | "1" => some 1
+  | _ => none
+
+def tArg (s : String) : Option (Option Nat) :=
+  if s == "z" then some none
+  else match natArg s maxTime with
+    | some 0 => none
+    | some v => some (some v)
+    | none => none
+
+/-- a | 0 | 1 | u (a key id nobody signed with: signer number 2) -/
+def fArg (s : String) : Option (Option Nat) :=
+  match s with
+  | "a" => some none
+  | "0" => some (some 0)
+  | "1" => some (some 1)
+  | "u" => some (some 2)
+  | _ => none
+
+def modeArg (s : String) : Option Mode :=
+  match s with
+  | "idx" => some .idx
+  | "inc" => some .inc
+  | "load" => some .load
+  | _ => none
+
+def corpusModeArg (s : String) : Option Mode :=
+  match s with
+  | "inc" => some .inc
+  | "load" => some .load
+  | _ => none
+
+def knownId (w : World) (id : Nat) : Bool :=
+  w.claims.any (fun c => c.id == id) || w.dels.any (fun d => d.deleter == id)
+
+def tgtArg (w : World) (s : String) : Option Ref :=
+  match s.toList with
+  | 'p' :: r => (pnArg w (String.ofList r)).map Ref.pn
+  | 'c' :: r =>
+    match natArg (String.ofList r) (2 ^ 30) with
+    | some id => if knownId w id then some (.cl id) else none
+    | none => none
+  | _ => none
+
+def showVals (vs : List Bytes) : String :=
+  vs.foldl (fun s v => s ++ " " ++ toHexString v) (toString vs.length)
+
+def showIds (cs : List Claim) : String :=
+  match cs with
+  | [] => "-"
+  | c :: t => t.foldl (fun s c => s ++ " " ++ toString c.id) (toString c.id)
+
+def kindArg (s : String) : Option Kind :=
+  match s with
+  | "set" => some .set
+  | "add" => some .add
+  | "del" => some .del
+  | _ => none
+
+def opt6 {α β γ δ ε ζ : Type} (a : Option α) (b : Option β) (c : Option γ) (d : Option δ) (e : Option ε)
+    (f : Option ζ) : Option (α × β × γ × δ × ε × ζ) :=
+  match a, b, c, d, e, f with
+  | some a, some b, some c, some d, some e, some f => some (a, b, c, d, e, f)
+  | _, _, _, _, _, _ => none
+
+def step (w : World) (ws : List String) : World × String :=
+  match ws with
+  | ["pn", p] =>
+    (match sArg p with
+     | some p => if p ∈ w.pns then (w, "bad-op") else ({ w with pns := p :: w.pns }, "ok")
+     | none => (w, "bad-op"))
+  | ["claim", id, p, s, kind, attr, val, date, rk] =>
+    (match opt6 (natArg id (2 ^ 30)) (pnArg w p) (sArg s) (kindArg kind) (textArg attr) (textArg val),
+           natArg date maxTime, natArg rk (2 ^ 48) with
+     | some (id, p, s, kind, attr, val), some date, some rk =>
+       if date = 0 || attr = [] || id ≤ w.maxId then (w, "bad-op")
+       else if w.claims.any (fun c => c.pn == p && c.signer == s && decide (c.kind = kind) && c.attr == attr
+            && c.val == val && c.date == date) then (w, "bad-op")
+       else
+         ({ w with claims := w.claims ++ [⟨id, rk, p, s, kind, attr, val, date⟩], maxId := id }, "ok")
+     | _, _, _ => (w, "bad-op"))
+  | ["delete", id, tgt, s, date, rk] =>
+    (match natArg id (2 ^ 30), tgtArg w tgt, sArg s, natArg date maxTime, natArg rk (2 ^ 48) with
+     | some id, some tgt, some s, some date, some rk =>
+       if date = 0 || id ≤ w.maxId then (w, "bad-op")
+       else if w.dels.any (fun d => decide (d.target = tgt) && d.signer == s && d.date == date) then (w, "bad-op")
+       else
+         let d : Del := ⟨tgt, id, s, date, rk⟩
+         let cl : List Claim :=
+           match tgt with
+           | .pn p => [⟨id, rk, p, s, .delete, [], [], date⟩]
+           | .cl _ => []
+         ({ w with claims := w.claims ++ cl, dels := w.dels ++ [d], maxId := id }, "ok")
+     | _, _, _, _, _ => (w, "bad-op"))
+  | ["attr", m, p, attr, t, f] =>
+    (w, match modeArg m, pnArg w p, textArg attr, tArg t, fArg f with
+     | some .idx, some p, some attr, some t, some f => toHexString (w.idxAttrValue p attr t nowC f)
+     | some m, some p, some attr, some t, some f => toHexString (w.corpusAttrValue m p attr t nowC f)
+     | _, _, _, _, _ => "bad-op")
+  | ["vals", m, p, attr, t, f] =>
+    (w, match corpusModeArg m, pnArg w p, textArg attr, tArg t, fArg f with
+     | some m, some p, some attr, some t, some f => showVals (w.corpusAttrValues m p attr t nowC f)
+     | _, _, _, _, _ => "bad-op")
+  | ["has", m, p, attr, val, t] =>
+    (w, match corpusModeArg m, pnArg w p, textArg attr, textArg val, tArg t with
+     | some m, some p, some attr, some val, some t => showBool (w.corpusHasAttrValue m p attr val t nowC)
+     | _, _, _, _, _ => "bad-op")
+  | ["via", m, p, t, f] =>
+    (w, match corpusModeArg m, pnArg w p, tArg t, fArg f with
+     | some m, some p, some t, some f =>
+       (match w.pm m p with
+        | none => "nopn"
+        | some pm =>
+          match valuesAtSigner pm t nowC f with
+          | none => "fold"
+          | some none => "nilok"
+          | some (some _) => "cache")
+     | _, _, _, _ => "bad-op")
+  | ["deleted", m, tgt] =>
+    (w, match modeArg m, tgtArg w tgt with
+     | some m, some tgt => showBool (w.isDeleted m tgt)
+     | _, _ => "bad-op")
+  | ["claims", m, p, f, a] =>
+    (w, match modeArg m, pnArg w p, fArg f,
+          (if a == "*" then some none
+           else match textArg a with
+             | some [] => none
+             | some b => some (some b)
+             | none => none) with
+     | some .idx, some p, some f, some a => showIds (w.idxAppendClaims p f a)
+     | some m, some p, some f, some a => showIds (w.corpusAppendClaims m p f a)
+     | _, _, _, _ => "bad-op")
+  | ["order", m, p] =>
+    (w, match corpusModeArg m, pnArg w p with
+     | some m, some p =>
+       (match w.pm m p with
+        | none => "-"
+        | some pm => showIds pm.claims)
+     | _, _ => "bad-op")
+  | _ => (w, "bad-op")
+
+def machine : Machine := { σ := World, init := World.empty, step := step }
+
 end Pk.Drv.C07
